@@ -689,6 +689,8 @@ pub fn c12(seed: u64, tier: Tier, index: u64) -> Vec<Episode> {
 #[derive(Clone, Debug)]
 pub enum C13Case {
     Pair(KType, KType),
+    /// the same on a map that was created but never received an entry
+    PairEmpty(KType, KType),
     SigByte { kt: KType, file: u8, off: u64, xor: u8 },
     Swap { kt: KType, other: KType, file: u8 },
 }
@@ -698,6 +700,11 @@ pub fn c13_cases() -> Vec<C13Case> {
     for a in ALL_KTYPES {
         for b in ALL_KTYPES {
             v.push(C13Case::Pair(a, b));
+        }
+    }
+    for a in ALL_KTYPES {
+        for b in ALL_KTYPES {
+            v.push(C13Case::PairEmpty(a, b));
         }
     }
     for (ti, kt) in ALL_KTYPES.iter().enumerate() {
@@ -753,7 +760,12 @@ pub fn c13(seed: u64, _tier: Tier, index: u64) -> Vec<Episode> {
     let cases = c13_cases();
     let case = cases[(index as usize) % cases.len()].clone();
     fn populate(g: &mut Gen, kt: KType, h: u8, st: &mut Vec<Step>) {
-        let n = g.rng.range(1, 10) as usize;
+        // now and then the map stays empty (headers only)
+        let n = if g.rng.chance(1, 5) { 0 } else { g.rng.range(1, 10) as usize };
+        if n == 0 {
+            st.push(Step::Len { h });
+            return;
+        }
         let keys = g.alphabet(kt, n, KeyDist::Short, None);
         for k in keys {
             let v = g.value(ValDist::Tiny);
@@ -769,6 +781,13 @@ pub fn c13(seed: u64, _tier: Tier, index: u64) -> Vec<Episode> {
             name = "type-pair";
             maps = vec![MapSpec { name: "t".into(), kt: a, params, dir: 0 }];
             populate(&mut g, a, 0, &mut st);
+            st.push(Step::ForeignOpen { m: 0, as_kt: b, expect_refused: a != b, swapped_from: None });
+            st.push(Step::ForeignOpen { m: 0, as_kt: a, expect_refused: false, swapped_from: None });
+        }
+        C13Case::PairEmpty(a, b) => {
+            name = "type-pair-empty-map";
+            maps = vec![MapSpec { name: "t".into(), kt: a, params, dir: 0 }];
+            st.push(Step::Len { h: 0 });
             st.push(Step::ForeignOpen { m: 0, as_kt: b, expect_refused: a != b, swapped_from: None });
             st.push(Step::ForeignOpen { m: 0, as_kt: a, expect_refused: false, swapped_from: None });
         }
